@@ -1,5 +1,4 @@
-// worker: child process that runs one shard of one monitor against the lattigo tree in /repo.
-package main
+package eng
 
 import (
 	"encoding/json"
@@ -7,12 +6,10 @@ import (
 	"fmt"
 	"os"
 	"strings"
-
-	"verif/harness/eng"
-	_ "verif/harness/mon"
 )
 
-func main() {
+// WorkerMain is the main function of a per-property worker binary.
+func WorkerMain() {
 	prop := flag.String("prop", "", "property id")
 	tier := flag.String("tier", "quick", "quick|thorough")
 	seed := flag.Int64("seed", 1, "VERIF_SEED")
@@ -26,9 +23,12 @@ func main() {
 	raceOnly := flag.Bool("raceonly", false, "only race/ cases")
 	noRace := flag.Bool("norace", false, "skip race/ cases")
 	flag.Parse()
-	m := eng.Get(*prop)
+	if *prop == "" && len(IDs()) == 1 {
+		*prop = IDs()[0]
+	}
+	m := Get(*prop)
 	if m == nil {
-		fmt.Fprintf(os.Stderr, "unknown property %q (have %v)\n", *prop, eng.IDs())
+		fmt.Fprintf(os.Stderr, "unknown property %q (have %v)\n", *prop, IDs())
 		os.Exit(2)
 	}
 	if *info {
@@ -43,7 +43,7 @@ func main() {
 			"assumptions": m.Assumptions, "ncases": len(cs) - nr, "nrace": nr})
 		return
 	}
-	if err := eng.RunShard(m, *tier, *seed, *shard, *nshards, *only, *skip, *raceOnly, *noRace, *out, *intent); err != nil {
+	if err := RunShard(m, *tier, *seed, *shard, *nshards, *only, *skip, *raceOnly, *noRace, *out, *intent); err != nil {
 		fmt.Fprintln(os.Stderr, "worker:", err)
 		os.Exit(2)
 	}
